@@ -22,6 +22,13 @@ Proof.
     try (specialize (IH l); lia).
 Qed.
 
+Lemma lt_length_updd {A} (d : A) n f l : n < length (updd d n f l).
+Proof.
+  revert l; induction n as [|n IH]; intros [|x l]; simpl; try lia.
+  - specialize (IH []). lia.
+  - specialize (IH l). lia.
+Qed.
+
 Lemma gcmd_ucmd_same c f H : gcmd c (ucmd c f H) = f (gcmd c H).
 Proof. unfold gcmd, ucmd; simpl. apply getd_updd_same. Qed.
 Lemma gcmd_ucmd_other c c' f H : c <> c' -> gcmd c' (ucmd c f H) = gcmd c' H.
